@@ -24,6 +24,8 @@ Orders(k, f) == { <<>> }
                 \cup { <<OKey(i, d)>> : i \in 1 .. Len(k), d \in BOOLEAN }
                 \cup { <<OAgg(j, d)>> : j \in IntAggs(f), d \in BOOLEAN }
                 \cup { <<OAgg(j, d), OKey(1, e)>> : j \in { x \in IntAggs(f) : f[x] = "count" }, d \in BOOLEAN, e \in BOOLEAN }
+                \* an aggregate that is not in the select list: the sum of the sizes (the judge computes it for each group)
+                \cup (IF \A x \in 1 .. Len(f) : f[x] # "sum" THEN { <<[by |-> "hsum", i |-> 0, desc |-> d]>> : d \in BOOLEAN } ELSE {})
                 \cup (IF Len(k) = 2 THEN { <<OKey(2, d), OKey(1, e)>> : d \in BOOLEAN, e \in BOOLEAN } ELSE {})
 (* shown: how many leading keys appear in the select list (a key need not be selected); hidden keys only with exact aggregates *)
 ExactLists == { <<"count">>, <<"count", "sum">>, <<"sum", "min", "max">> }
@@ -33,7 +35,7 @@ Choose == /\ phase = "start" /\ ws' \in WorldSel
           /\ keys' \in KeyLists /\ fns' \in AggLists /\ flt' \in DOMAIN Filters
           /\ \/ shown' = Len(keys') /\ ord' \in Orders(keys', fns')
              \/ /\ fns' \in ExactLists /\ shown' \in 0 .. Len(keys') - 1
-                /\ ord' \in { o \in Orders(keys', fns') : \A x \in 1 .. Len(o) : o[x].by = "agg" \/ o[x].i <= shown' }
+                /\ ord' \in { o \in Orders(keys', fns') : \A x \in 1 .. Len(o) : o[x].by = "agg" \/ (o[x].by = "key" /\ o[x].i <= shown') }
           /\ phase' = "done"
 Next == Choose
 Spec == Init /\ [][Next]_vars
@@ -46,7 +48,7 @@ ListText(i) == IF i > Len(fns) THEN "" ELSE (IF i = 1 /\ shown = 0 THEN "" ELSE 
 RECURSIVE ShownText(_)
 ShownText(i) == IF i > shown THEN "" ELSE (IF i > 1 THEN ", " ELSE "") \o keys[i] \o ShownText(i + 1)
 WhereText == IF flt = "all" THEN "" ELSE " where " \o FormulaText(Filters[flt], FAtoms, "min")
-OrdItem(o) == (IF o.by = "key" THEN keys[o.i] ELSE FnText(fns[o.i])) \o (IF o.desc THEN " desc" ELSE "")
+OrdItem(o) == (IF o.by = "key" THEN keys[o.i] ELSE IF o.by = "hsum" THEN "sum(size)" ELSE FnText(fns[o.i])) \o (IF o.desc THEN " desc" ELSE "")
 OrderText == IF ord = <<>> THEN "" ELSE " order by " \o OrdItem(ord[1]) \o (IF Len(ord) = 2 THEN ", " \o OrdItem(ord[2]) ELSE "")
 OrdClass == IF ord = <<>> THEN "none" ELSE ord[1].by \o (IF ord[1].desc THEN "-desc" ELSE "") \o (IF Len(ord) = 2 THEN "+" \o ord[2].by \o (IF ord[2].desc THEN "-desc" ELSE "") ELSE "")
 
